@@ -153,17 +153,49 @@ theorem startReader_hro (f : FsCfg) (h : Handle) (hh : HRO h) : Post HRO (startR
   unfold startReader
   repeat (first | (with_reducible apply Post.bind; intro _) | hro_step)
 
+/-- what `M.attempt` returns: a value satisfying the postcondition, or an error -/
+theorem Post.attempt {α} {Q : α → Prop} {m : M α} (hm : Post Q m) :
+    Post (fun r => match r with | .ok a => Q a | .error _ => True) (M.attempt m) := by
+  constructor
+  intro w w' r hr
+  have : M.attempt m w = ((m w).1, .ok (m w).2) := rfl
+  rw [this] at hr
+  injection hr with h1 h2
+  injection h2 with h2
+  subst h2
+  cases hres : (m w).2 with
+  | error e => trivial
+  | ok a =>
+    have : m w = ((m w).1, .ok a) := by rw [← hres]
+    exact hm.run w _ a this
+
 theorem hRead_hro (f : FsCfg) (h : Handle) (n : Nat) (hh : HRO h) : Post (fun r => HRO r.1) (hRead f h n) := by
   unfold hRead
   have hw := hh.1
   simp only [hw]
   repeat (first | with_reducible exact startReader_hro f _ (by assumption) | hro_step)
 
+/-- the (re)start inside `Seek`: whatever handle comes out of it is still read-only -/
+theorem seekStart_hro (f : FsCfg) (h : Handle) (lazyOk : Bool) (hh : HRO h) : Post HRO (seekStart f h lazyOk) := by
+  unfold seekStart
+  have hs : HRO { h with reader := none } := (HRO_reader h none).mpr hh
+  refine Post.bind' (Post.attempt (startReader_hro f _ hs)) ?_
+  intro r hr
+  cases r with
+  | ok h' => exact Post.pure _ hr
+  | error e =>
+    cases e <;> first
+      | exact Post.fail _
+      | (with_reducible apply Post.ite; exact Post.pure _ hs; exact Post.fail _)
+
 theorem hSeekNoLock_hro (f : FsCfg) (h : Handle) (o wh : Int) (hh : HRO h) : Post (fun r => HRO r.1) (hSeekNoLock f h o wh) := by
   unfold hSeekNoLock
   have hw := hh.1
   simp only [hw]
-  repeat (first | with_reducible exact startReader_hro f _ (by first | assumption | (simp only [HRO] at *; simp_all)) | hro_step)
+  repeat (first
+    | with_reducible exact seekStart_hro f _ _ (by first | assumption | (simp only [HRO] at *; simp_all))
+    | with_reducible exact startReader_hro f _ (by first | assumption | (simp only [HRO] at *; simp_all))
+    | hro_step)
 
 theorem hReadAt_hro (f : FsCfg) (h : Handle) (n : Nat) (o : Int) (hh : HRO h) : Post (fun r => HRO r.1) (hReadAt f h n o) := by
   unfold hReadAt
